@@ -35,6 +35,8 @@ pub enum Step {
     Burst(u8),
     /// a quiet period in units of 100 ms (only in histories with short timers)
     Pause(u8),
+    /// a sequential request to a port where nothing listens: it fails, the session it used stays healthy
+    Refused,
 }
 
 #[derive(Clone, Debug, Serialize, Deserialize)]
@@ -132,8 +134,8 @@ impl Family for ReuseFam {
         "reuse"
     }
     fn strategy(&self, _tier: Tier) -> BoxedStrategy<ReuseCase> {
-        let step = prop_oneof![4 => Just(Step::Seq), 1 => (2u8..6).prop_map(Step::Burst), 1 => (8u8..20).prop_map(Step::Burst)];
-        let step_t = prop_oneof![4 => Just(Step::Seq), 1 => (2u8..4).prop_map(Step::Burst), 2 => prop_oneof![Just(5u8), Just(25), Just(35)].prop_map(Step::Pause)];
+        let step = prop_oneof![8 => Just(Step::Seq), 2 => (2u8..6).prop_map(Step::Burst), 2 => (8u8..20).prop_map(Step::Burst), 1 => Just(Step::Refused)];
+        let step_t = prop_oneof![8 => Just(Step::Seq), 2 => (2u8..4).prop_map(Step::Burst), 4 => prop_oneof![Just(5u8), Just(25), Just(35)].prop_map(Step::Pause), 1 => Just(Step::Refused)];
         prop_oneof![
             2 => (0usize..=3, proptest::collection::vec(step, 2..14)).prop_map(|(min_idle, steps)| ReuseCase { min_idle, steps, short_timers: false }),
             1 => (1usize..=2, proptest::collection::vec(step_t, 2..7)).prop_map(|(min_idle, steps)| ReuseCase { min_idle, steps, short_timers: true }),
@@ -145,6 +147,9 @@ impl Family for ReuseFam {
             ReuseCase { min_idle: 1, steps: vec![Step::Seq, Step::Seq], short_timers: false },
             ReuseCase { min_idle: 1, steps: vec![Step::Seq; 6], short_timers: false },
             ReuseCase { min_idle: 0, steps: vec![Step::Burst(3), Step::Seq, Step::Seq, Step::Seq], short_timers: false },
+            // a destination that refuses costs the request, not the session
+            ReuseCase { min_idle: 1, steps: vec![Step::Refused, Step::Seq, Step::Seq], short_timers: false },
+            ReuseCase { min_idle: 1, steps: vec![Step::Seq, Step::Refused, Step::Seq, Step::Refused, Step::Seq], short_timers: false },
             // a quiet period longer than the idle timeout: the reaper keeps min idle sessions for reuse
             ReuseCase { min_idle: 1, steps: vec![Step::Seq, Step::Pause(35), Step::Seq], short_timers: true },
             ReuseCase { min_idle: 2, steps: vec![Step::Burst(3), Step::Pause(35), Step::Seq, Step::Seq], short_timers: true },
@@ -181,11 +186,20 @@ impl Family for ReuseFam {
                     let before = fwd.accepted.load(Ordering::SeqCst);
                     let established = fwd.live.load(Ordering::SeqCst);
                     match step {
-                        Step::Seq => {
+                        Step::Seq | Step::Refused => {
                             n += 1;
                             seq_run += 1;
                             peak = peak.max(1);
-                            one_request(socks, target, n).await?;
+                            if matches!(step, Step::Refused) {
+                                match tokio::time::timeout(Duration::from_secs(40), socks5_connect(socks, &Dest::of(w.closed_port))).await {
+                                    Ok(Err(Some(_))) => {}
+                                    Ok(Err(None)) => return Err(Fail::plain("C13.serve", format!("request #{n} to a closed port: the front-end closed without a reply"))),
+                                    Ok(Ok(_)) => return Err(infra(format!("a connection to the closed port {} succeeded", w.closed_port))),
+                                    Err(_) => return Err(Fail::plain("C13.serve", format!("request #{n} to a closed port got no reply within 40 s"))),
+                                }
+                            } else {
+                                one_request(socks, target, n).await?;
+                            }
                             tokio::time::sleep(Duration::from_millis(40)).await;
                             let dialled = fwd.accepted.load(Ordering::SeqCst) - before;
                             if pooled > 0 && dialled > 0 {
@@ -279,12 +293,13 @@ impl Family for ReuseFam {
             reset_world();
             return Err(f);
         }
-        let seqs = case.steps.iter().filter(|s| matches!(s, Step::Seq)).count();
+        let seqs = case.steps.iter().filter(|s| matches!(s, Step::Seq | Step::Refused)).count();
         let burst_then_seq = case.steps.windows(2).any(|w| matches!(w[0], Step::Burst(_)) && matches!(w[1], Step::Seq));
         out.nt(seqs >= 3 || burst_then_seq);
         out.class_if(seqs >= 3, "sequential>=3");
         out.class_if(burst_then_seq, "burst-then-sequential");
         out.class_if(case.min_idle == 0, "min_idle=0");
+        out.class_if(case.steps.windows(2).any(|w| matches!(w[0], Step::Refused) && matches!(w[1], Step::Seq)), "refused-then-sequential");
         out.class_if(case.steps.iter().any(|s| matches!(s, Step::Pause(d) if *d >= 20)) && case.short_timers, "quiet-period>idle-timeout");
         Ok(out)
     }
